@@ -4,18 +4,21 @@ from vlib.core import Case
 
 ID = "C11"
 LEAN_MODULE = "Ctrmml.Properties.C11"
-THEOREMS = ["C11_fm_roundtrip", "C11_fm_2op_spec", "C11_psg_frames", "C11_psg_marks", "C11_pitch_node", "C11_pitch_vibrato",
-            "C11_pitch_decode_compact", "C11_pitch_decode_extended", "C11_pitch_form", "C11_psg_slide_rat_partial"]
+THEOREMS = ["C11_fm_roundtrip", "C11_fm_2op_spec", "C11_fm_base_inv", "C11_fm_2op_base", "C11_psg_frames", "C11_psg_marks", "C11_pitch_node", "C11_pitch_node_limit",
+            "C11_pitch_vibrato", "C11_vibrato_rate", "C11_pitch_decode_compact", "C11_pitch_decode_extended", "C11_pitch_loop_checked",
+            "C11_pitch_form",
+            "C11_psg_slide_rat_partial"]
 LEVEL = "proof"
 STREAM = "data.bank"
 CHUNK = 150
 CASE_SECONDS = 20
 RULE = ("instrument/envelope definitions fed as tag lists into a Song (and, for a smaller family, as MML text through MML_Input) and run "
         "through MDSDRV_Data::read_song: FM definitions with all 42 parameters random in range (and out of range in the malformed stream), "
-        "every 2op derivation of them, PSG envelopes over values 0..15 with slides, lengths 1..255, default length, sustain and loop marks, "
+        "every 2op derivation of them, 2op definitions referencing every kind of base (fm, psg, instrument 0, missing, itself, another 2op, a "
+        "redefined id), definitions without a type, PSG envelopes over values 0..15 with slides, lengths 1..255, default length, sustain and loop marks, "
         "the exhaustive family of single PSG slides (initial,target,length) [quick: all with length<=24 plus a sample; thorough: all 65280], "
         "pitch envelopes with integer and decimal nodes in +-127 semitones, lengths 1..1000, vibrato macro, loop mark, with and without "
-        "noextpitch. non-trivial = at least one definition that reaches an encoder (tag of its kind); distinct by request text")
+        "noextpitch, envelopes of 254..258 nodes in every form (the 256-node limit) and lengths / vibrato rates around 2^30, 2^31, 2^32. non-trivial = at least one definition that reaches an encoder (tag of its kind); distinct by request text")
 EXPLANATION = ("theorems over Model/MdsData (generic in the floating-point arithmetic) + Spec/MdsData decoders; the model (run with IEEE binary64 "
                "= Lean Float) is compared byte for byte with mdsdrv.cpp on every case, and the independent decoders decodeFm / expandPsg / "
                "runPitchEnv are applied to the real data-bank bytes")
@@ -171,13 +174,85 @@ CORPUS = [
     "ins ; @m3 0>100:2",
     "ins opt=noextpitch ; @m3 0>100:2",
     "ins ; @m5 0>3:510 ; @m6 0>1:510 ; @m7 127>0:1000 ; @m8 127 ; @m9 0>12",
-    # 2op on a non-FM base (outside the quantifier; indexes past the vector's size)
+    # 2op: the base must be an FM instrument (fix 85bdeee: a PSG base was copied as if it were 30 bytes) —
+    # psg, the predefined instrument 0 (type undefined), missing, itself, an fm, another 2op, an fm redefined as psg
+    "ins ; @1 psg 15 ; @24 2op 1 1 1 1 1 0",
     "ins ; @1 psg 15 ; @2 2op 1 1 1 1 1 0",
     "ins ; @2 2op 0 1 1 1 1 0",
     "ins ; @2 2op 7 1 1 1 1 0",
+    "ins ; @2 2op 2 1 1 1 1 0",
+    "ins ; @1 fm " + " ".join(FM2) + " ; @2 2op 1 5 5 4 4 0 ; @3 2op 2 1 2 3 4 -4 ; @3 2op 3 9 9 9 9 9",
+    "ins ; @1 fm " + " ".join(FM2) + " ; @01 psg 15 14 ; @2 2op 1 5 5 4 4 0",
+    "ins ; @1 fm " + " ".join(FM2) + " ; @01 psg ; @2 2op 1 5 5 4 4 0",
+    "ins ; @1 fm " + " ".join(FM2) + " ; @2 2op 257 5 5 4 4 0 ; @3 2op 513 1 1 1 1 1",
+    # an instrument definition without a type (fix 7061cba: tag.begin() of an empty tag was dereferenced)
+    "ins ; @1",
+    "ins ; @1 ; @2 psg 15",
+    "ins ; @2 psg 15 ; @1 ; @3 psg 14",
+    "insmml " + "@1 ;comment\n".encode().hex(),
+    "insmml " + "@1\n@2 psg 15\n".encode().hex(),
+    "insmml " + "@1 ;c\n\tpsg 15\n".encode().hex(),
+    # FM transpose near LONG_MAX (fix a2025de: (strtol + 24) * 2 overflowed a long; strtol saturates)
+    "ins ; @1 fm " + " ".join(FM1) + " 9223372036854775807",
+    "ins ; @1 fm " + " ".join(FM1) + " 9223372036854775795",
+    "ins ; @1 fm " + " ".join(FM1) + " 99999999999999999999",
+    "ins ; @1 fm " + " ".join(FM1) + " -9223372036854775808",
+    "ins ; @1 fm " + " ".join(FM1) + " -99999999999999999999",
+    "ins ; @1 fm " + " ".join(FM1) + " 4611686018427387904",
+    # vibrato rate of 2^30 or more (fix 584f89a: vibrato_rate*2 overflowed an int) and the 256-node limit
+    # (fix c469126: these were split into millions of nodes)
+    "ins ; @m1 V0:1:1073741824",
+    "insmml " + "@M1 V0:1:1073741824\n".encode().hex(),
+    "insmml " + "@M1 V0:1:99999999\n".encode().hex(),
+    "insmml " + "@M1 0>1:2000000000\n".encode().hex(),
+    "ins ; @m1 V0:1:1073741823",
+    "ins ; @m1 V0:1:2147483647",
+    "ins ; @m1 V0:1:-1073741825",
+    # the doubled rate is read back into an int: -2^31 * 2 wraps to 0, i.e. one frame (only the middle node exists)
+    "ins ; @m1 V0:1:-2147483648",
+    "ins ; @m1 V0:1:4294967297",
+    "ins ; @m1 V0:1:99999999999999999999",
+    # a written length is an int as well
+    "ins ; @m1 0:4294967297",
+    "ins ; @m1 0 0:2147483648 1",
+    "ins ; @m1 0>1:4294967298",
+    # exactly 255 / 256 / 257 nodes: single nodes, one long node, extended form, noextpitch
+    "ins ; @m1 " + " ".join(["0", "1"] * 127) + " 0",
+    "ins ; @m1 " + " ".join(["0", "1"] * 128),
+    "ins ; @m1 " + " ".join(["0", "1"] * 128) + " 0",
+    "ins ; @m1 0>1:65025 ; @m2 0>1:65280 ; @m3 0>1:65279",
+    "ins ; @m1 0>1:65281",
+    "ins ; @m1 0:255 0>1:65025",
+    "ins ; @m1 0:255 0>1:65026",
+    "ins ; @m1 " + " ".join(["0>100:2"] * 256),
+    "ins ; @m1 " + " ".join(["0>100:2"] * 257),
+    "ins ; @m1 0>120:65280",
+    "ins ; @m1 0>120:65281",
+    "ins opt=noextpitch ; @m1 " + " ".join(["0>100:2"] * 256),
+    "ins opt=noextpitch ; @m1 " + " ".join(["0>100:2"] * 257),
+    # the compact form throws invalid_argument at the 257th node before it would be too long: the extended pass reports it
+    "ins ; @m1 " + " ".join(["0"] * 256) + " 0>100:2",
+    "ins ; @m1 " + " ".join(["0"] * 255) + " 0>100:2",
+    # loop position 256 = 256 nodes, then the mark (or a vibrato macro that adds no node): wrapped to 00 after c469126,
+    # an InputError since 3ecca73; 255 nodes then the mark is position 255 and is accepted
+    "ins ; @m1 " + " ".join(["0", "1"] * 128) + " |",
+    "ins ; @m1 " + " ".join(["0", "1"] * 127) + " 0 |",
+    "ins ; @m1 " + " ".join(["0", "1"] * 128) + " V0:1:-5",
+    "ins ; @m1 " + " ".join(["0>100:2"] * 256) + " |",
+    "ins ; @m1 " + " ".join(["0>100:2"] * 255) + " |",
+    "ins ; @m1 0:65280 |",
+    "ins ; @m1 " + " ".join(["0:1000"] * 64) + " |",
+    "ins ; @m1 " + " ".join(["0:1000"] * 63) + " 0:999 |",
+    # loop mark with 256 nodes in front of it / behind it
+    "ins ; @m1 | " + " ".join(["0", "1"] * 128),
+    "ins ; @m1 " + " ".join(["0", "1"] * 127) + " 0 | 5",
+    "ins ; @m1 " + " ".join(["0", "1"] * 126) + " 0 V0:1:5",
+    "ins ; @m1 " + " ".join(["0", "1"] * 126) + " 0 1 V0:1:5",
+    # the error stops read_song: later definitions are not read
+    "ins ; @m1 0>1:65281 ; @1 psg 15",
     # float vs exact-rational difference in a PSG slide (frame 3 is 0 in binary64, 1 in exact arithmetic)
     "ins ; @10 psg 0>1:7",
-    # loop / next index above 255 is emitted as one byte (wraps)
+    # PSG loop position above 255 is emitted as one byte (wraps); the pitch twins are an InputError since c469126
     "ins ; @1 psg " + " ".join(["15", "14"] * 130) + " | 3 2",
     "ins ; @m1 " + " ".join(["0", "1"] * 130) + " | 3 2",
     "ins ; @m1 " + " ".join(["0>100:2", "1"] * 130) + " 0>1:5",
@@ -207,6 +282,86 @@ def slide_family(rng, tier):
         for k in range(0, len(pairs), 16):
             groups = [("@%d" % (j + 1), ["psg", "%d>%d:%d" % (i, t, n)]) for j, (i, t) in enumerate(pairs[k:k + 16])]
             yield Case(req(groups), ("psg", "psg-slide", "psg-slide-family"), "psg-slide")
+
+
+def ref2op_family(rng, tier):
+    """a 2op definition referencing every kind of base: an fm, a psg, the predefined instrument 0, a missing id, itself,
+    another 2op, an fm whose id was redefined (key @01) as psg / empty psg / fm, an id that only differs modulo 256"""
+    bases = ["fm", "psg", "zero", "missing", "self", "2op", "fm-then-psg", "fm-then-emptypsg", "psg-then-fm", "mod256", "later-fm",
+             "pitch"]
+    for kind in bases:
+        for rep_ in range(3 if tier == "quick" else 12):
+            d = fm_def(rng)
+            two = [str(rng.randrange(16)) for _ in range(4)] + [str(rng.choice([0, 5, -4, -24, 103, rng.randrange(-24, 104)]))]
+            fm = ("@1", ["fm"] + d + ([str(rng.randrange(-24, 104))] if rng.random() < 0.5 else []))
+            psg = ("@1", ["psg"] + psg_def(rng))
+            if kind == "fm": groups = [fm, ("@2", ["2op", "1"] + two)]
+            elif kind == "psg": groups = [psg, ("@2", ["2op", "1"] + two)]
+            elif kind == "zero": groups = [fm, ("@2", ["2op", "0"] + two)]
+            elif kind == "missing": groups = [fm, ("@2", ["2op", str(rng.choice([3, 7, 200, 255]))] + two)]
+            elif kind == "self": groups = [fm, ("@2", ["2op", "2"] + two)]
+            elif kind == "2op": groups = [fm, ("@2", ["2op", "1"] + two), ("@3", ["2op", "2"] + [str(rng.randrange(16)) for _ in range(4)] + ["7"])]
+            elif kind == "fm-then-psg": groups = [fm, ("@01", ["psg"] + psg_def(rng)), ("@2", ["2op", "1"] + two)]
+            elif kind == "fm-then-emptypsg": groups = [fm, ("@01", ["psg"]), ("@2", ["2op", "1"] + two)]
+            elif kind == "psg-then-fm": groups = [psg, ("@01", ["fm"] + fm_def(rng)), ("@2", ["2op", "1"] + two)]
+            elif kind == "mod256": groups = [fm, ("@2", ["2op", str(rng.choice([257, 513, -255]))] + two)]
+            elif kind == "later-fm": groups = [("@2", ["2op", "1"] + two), fm]
+            else: groups = [("@m1", ["0", "1"]), ("@2", ["2op", "1"] + two)]
+            yield Case(req(groups), tags_of(groups, False) + ["2op-ref:" + kind], "2op-ref")
+
+
+def limit_family(rng, tier):
+    """pitch envelopes of 254..258 nodes: add_pitch_node rejects the 257th (fix c469126)"""
+    counts = [254, 255, 256, 257, 258]
+    for n in counts:
+        for form in ["singles", "long", "two-long", "extended", "noext-capped", "late-extended", "loop-first", "loop-mid", "loop-end",
+                     "loop-end-extended", "vib-none-end", "vib-tail", "vib-head", "two-envelopes"]:
+            noext = form == "noext-capped"
+            if form == "singles":
+                toks = [str(rng.choice([0, 1, -1, 12])) for _ in range(n)]
+            elif form == "long":
+                k = rng.randrange(1, 256)
+                toks = ["%d>%d:%d" % (rng.choice([0, 1, -3]), rng.choice([0, 2, 5]), 255 * (n - 1) + k)]
+            elif form == "two-long":
+                a = rng.randrange(1, n)
+                toks = ["0:%d" % (255 * (a - 1) + rng.randrange(1, 256)), "1>0:%d" % (255 * (n - a - 1) + rng.randrange(1, 256))]
+            elif form in ("extended", "noext-capped"):
+                toks = ["0>100:2" if rng.random() < 0.5 else "0>-100:1" for _ in range(n)]
+            elif form == "late-extended":
+                toks = ["0"] * (n - 1) + ["0>100:2"]
+            elif form == "loop-first":
+                toks = ["|"] + [str(rng.choice([0, 1])) for _ in range(n)]
+            elif form == "loop-mid":
+                m = rng.randrange(1, min(n, 255))
+                toks = [str(rng.choice([0, 1])) for _ in range(n)]
+                toks.insert(m, "|")
+            elif form == "loop-end":
+                toks = [str(rng.choice([0, 1])) for _ in range(n)] + ["|"]
+            elif form == "loop-end-extended":
+                toks = ["0>100:2"] * n + ["|"]
+            elif form == "vib-none-end":
+                toks = [str(rng.choice([0, 1])) for _ in range(n)] + ["V0:1:%d" % rng.choice([-1, -5, -2147483647])]
+            elif form == "vib-tail":
+                toks = ["0"] * (n - 3) + ["V0:1:%d" % rng.choice([1, 5, 200])]
+            elif form == "vib-head":
+                toks = ["V0:1:%d" % rng.choice([1, 5, 200])] + ["0"] * (n - 3)
+            else:
+                toks = ["0"] * n
+            groups = [("@m1", toks)]
+            if form == "two-envelopes":
+                # the limit is per envelope
+                groups = [("@m1", ["1"] * 200), ("@m2", toks)]
+            yield Case(req(groups, noext), tags_of(groups, noext) + ["pitch-nodes:%d" % n, "pitch-limit:" + form], "pitch-limit")
+    # long single nodes and vibrato rates around the limit and around the int boundaries
+    rates = [21760, 21761, 32640, 32641, 65280, 65281, 99999999, 1073741823, 1073741824, 2147483647, 2147483648, 4294967296, 4294967297,
+             -1, -5, -1073741824, -1073741825, -2147483648, -2147483649]
+    for r in rates:
+        for tok in ("V0:1:%d" % r, "0>1:%d" % r, "3:%d" % r):
+            groups = [("@m1", [tok])]
+            yield Case(req(groups), tags_of(groups, False) + ["pitch-limit:rate"], "pitch-limit")
+            if tier != "quick":
+                groups = [("@m1", ["0", tok, "1"])]
+                yield Case(req(groups), tags_of(groups, False) + ["pitch-limit:rate"], "pitch-limit")
 
 
 def mml_text(rng):
@@ -250,6 +405,8 @@ def cases(rng, tier):
     for c in CORPUS:
         yield Case(c, ("corpus",), "corpus")
     yield from slide_family(rng, tier)
+    yield from ref2op_family(rng, tier)
+    yield from limit_family(rng, tier)
     big = tier != "quick"
     # FM + all 2op derivations
     for i in range(1500 if big else 120):
@@ -323,12 +480,15 @@ def cases(rng, tier):
             d = fm_def(rng, wild=True)
             if rng.random() < 0.3:
                 d = d[:rng.randrange(0, 42)]
-            tr = [str(rng.choice([0, -25, 104, 200, -200, 127, -128]))] if rng.random() < 0.6 else []
+            tr = [str(rng.choice([0, -25, 104, 200, -200, 127, -128, 9223372036854775807, -9223372036854775808, 2 ** 63 - 24, 2 ** 64, -2 ** 64 + 3,
+                                  2 ** 62, rng.randrange(-2 ** 65, 2 ** 65)]))] if rng.random() < 0.6 else []
             groups = [("@1", [rng.choice(["fm", "FM", "Fm"])] + d + tr)]
         elif kind == "2op":
             groups = [("@1", ["fm"] + fm_def(rng)), ("@2", ["2op"] + [str(rng.choice([1, 1, 1, 2, 0, 257, 3, -1])) ] + [str(rng.choice([0, 15, 16, 255, -1, rng.randrange(16)])) for _ in range(rng.choice([4, 4, 4, 3, 2]))] + [str(rng.choice([0, -30, 110, 127, -128, 5]))])]
         else:
-            groups = [(rng.choice(["@1", "@01", "@65536", "@65537", "@-1", "@+3", "@m", "@m2", "@m02", "@3x", "#title", "@@1", "@m-1"]), rng.choice([["psg", "15", "14"], ["0>12:5"], ["fm"] + fm_def(rng)]))]
+            groups = [(rng.choice(["@1", "@01", "@65536", "@65537", "@-1", "@+3", "@m", "@m2", "@m02", "@3x", "#title", "@@1", "@m-1"]), rng.choice([["psg", "15", "14"], ["0>12:5"], ["fm"] + fm_def(rng), [], []]))]
+            if rng.random() < 0.3:
+                groups.append(("@9", ["psg", "15"]))
         yield Case(req(groups, rng.random() < 0.2), ("malformed",), "malformed")
 
 
@@ -379,8 +539,7 @@ def finding_key(case, impl, judge):
     if "psg" in judge.lower():
         return "psg:index-overflow" if big else "psg"
     if "@m" in judge:
-        if big:
-            return "pitch:index-overflow"
+        # (more than 256 nodes, or a loop mark behind the 256th, is an InputError now: no pitch:index-overflow key)
         # step overflow: a written node whose per-frame step does not fit 16 bits
         if step_overflow(case.req):
             return "pitch:step-overflow"
@@ -439,9 +598,10 @@ LEVEL_TEXT = ("Machine-checked theorems over a Lean model of MDSDRV_Data: every 
               "(operators in hardware order, AM flag, transpose byte); a 2op definition is its base patch with only the multipliers, the fourth operator's "
               "level and the transpose replaced; for every floating-point arithmetic whose single slides have the slide shape (hypothesis SlideOK), every "
               "PSG envelope expands to the written frames with sustain/loop marks at the written places (merging of equal frames, the 15-frame cap and "
-              "the end/loop command are handled by the proof; mark positions and pitch envelopes are not proved). The model "
+              "the end/loop command are handled by the proof); pitch envelopes: node structure, the 256-node limit, both read-back forms, vibrato; "
+              "a 2op base is always a 30-byte FM image (state invariant of read_song). The model "
               "runs IEEE binary64 and is tied to mdsdrv.cpp byte for byte on the generated definitions.")
-LEVEL_NOTE = ("Partial: SlideOK for binary64 is not proved but checked exhaustively against the real code (65280 slides in the thorough tier); the positions of "
-              "PSG sustain/loop marks and all pitch-envelope clauses (start pitch, frames, error bound, compact-vs-extended, loop index) are checked by the "
-              "independent decoders expandPsg / runPitchEnv on the real bytes of every generated definition, not proved. "
+LEVEL_NOTE = ("Partial: SlideOK for binary64 is not proved but checked exhaustively against the real code (65280 slides in the thorough tier); the "
+              "exact-decimal pitch clauses (start = floor(256*initial), error below one step per frame) are checked by the independent decoder runPitchEnv on the "
+              "real bytes of every generated definition, not proved; a PSG loop mark behind more than 255 bytes wraps (known finding). "
               "Trusted: Lean kernel, hand-written model and spec, IEEE-754 binary64 semantics, g++/ASan/UBSan, harness.")
